@@ -147,6 +147,26 @@ def bytearray_case(c):
 
 
 prove("bytearray with symbolic content", bytearray_case)
+
+
+def bytesio_case(c):
+    import io
+    E = SymEnv(c)
+    t = E.bytes("t", 3)
+    f = I.__sx_call__(io.BytesIO)
+    f.write(b"ab")
+    f.write(t)
+    f.write(b"z")
+    E.check_eq(f.getvalue(), b"ab" + t + b"z", "writes append")
+    f.seek(1)
+    f.write(t[:1])
+    E.check_eq(f.getvalue(), b"a" + t[:1] + t + b"z", "write at a position overwrites")
+    f.seek(0)
+    E.check_eq(f.read(2), b"a" + t[:1], "read back")
+    E.check(I.sx_isinstance(f, io.BytesIO), "isinstance")
+
+
+prove("BytesIO as a writer", bytesio_case)
 def just_case(c):
     """str.rjust / ljust / center on text with symbolic characters; the expected layout comes from CPython's own
     result on a probe string of the same length"""
